@@ -429,6 +429,15 @@ Proof.
   - st_simpl. pose proof (line_term_le (rest s (pos u))) as H2. rewrite rest_len in H2. repeat split; lia.
 Qed.
 
+Lemma skip_ws_spec u :
+  pos u <= L ->
+  pos u <= pos (skip_ws s u) /\ pos (skip_ws s u) <= L /\ start (skip_ws s u) = start u
+  /\ mstart (skip_ws s u) = mstart u /\ lstart (skip_ws s u) = lstart u.
+Proof.
+  intros H. unfold skip_ws. st_simpl.
+  pose proof (take_while_len is_ws (rest s (pos u))) as H2. rewrite rest_len in H2. repeat split; lia.
+Qed.
+
 Definition line_post (t : st) (x : st * ltok * option wc) : Prop :=
   adv t (fst (fst x)) /\ pos t < pos (fst (fst x)).
 
@@ -465,11 +474,27 @@ Lemma liquid_block_comment_spec : forall f t depth,
   le_L t ->
   rspec (2 * (L - pos t) + 1) f (liquid_block_comment s f t depth) (lbc_post t).
 Proof.
-  induction f as [|f IH]; intros t depth (H1 & H2); [simpl; lia|].
+  induction f as [|f IH]; intros t0 depth (H01 & H02); [simpl; lia|].
   cbn [liquid_block_comment]. cbv zeta.
+  destruct (skip_ws_spec t0 H02) as (W1 & W2 & W3 & W4 & W5).
+  assert (Hrec0 : forall t' d, le_L t' -> pos t0 < pos t' -> mstart t' = mstart t0 -> lstart t' = lstart t0 ->
+            rspec (2 * (L - pos t0) + 1) (S f) (liquid_block_comment s f t' d) (lbc_post t0)).
+  { intros t' d (B1 & B2) B3 B4 B5.
+    eapply rspec_mono; [apply IH; split; assumption|lia|].
+    intros x ((C1 & C2 & C3 & C4) & C5). unfold lbc_post, adv.
+    repeat split; try apply C1; try lia; congruence. }
+  remember (skip_ws s t0) as t eqn:Ht.
+  assert (H1 : start t <= pos t) by lia. assert (H2 : pos t <= L) by lia.
+  assert (Hpost : forall x, lbc_post t x -> lbc_post t0 x).
+  { intros x ((C1 & C2 & C3 & C4) & C5). unfold lbc_post, adv. repeat split; try apply C1; try lia; congruence. }
+  eapply rspec_mono with (b' := 2 * (L - pos t0) + 1) (f' := S f) (P := lbc_post t0); [|lia|auto].
+  assert (Hback : forall r, rspec (2 * (L - pos t0) + 1) (S f) r (lbc_post t) ->
+                            rspec (2 * (L - pos t0) + 1) (S f) r (lbc_post t0)).
+  { intros r0 Hr. eapply rspec_post; [exact Hr|exact Hpost]. }
+  apply Hback. clear Hback.
   pose proof (tag_name_len_le (rest s (pos t))) as Hn. rewrite rest_len in Hn.
   assert (Hrec : forall t' d, le_L t' -> pos t < pos t' -> mstart t' = mstart t -> lstart t' = lstart t ->
-            rspec (2 * (L - pos t) + 1) (S f) (liquid_block_comment s f t' d) (lbc_post t)).
+            rspec (2 * (L - pos t0) + 1) (S f) (liquid_block_comment s f t' d) (lbc_post t)).
   { intros t' d (B1 & B2) B3 B4 B5.
     eapply rspec_mono; [apply IH; split; assumption|lia|].
     intros x ((C1 & C2 & C3 & C4) & C5). unfold lbc_post, adv.
